@@ -83,7 +83,7 @@ pub fn fuzz_nrpn(data: &[u8]) -> Result<(), FuzzFail> {
 pub fn fuzz_polling(data: &[u8]) -> Result<(), FuzzFail> {
     use crate::p_polling::*;
     let mut c = Cur::new(data);
-    let t = TIMEOUTS[(c.u8() % 7) as usize];
+    let t = TIMEOUTS[(c.u8() % 8) as usize];
     let h = decode_history(Kind::Polling, &mut c, 600);
     let ops = concretize(Kind::Polling, &h, t);
     for prop in ["C14", "C13"] {
@@ -98,7 +98,7 @@ pub fn fuzz_grammar(data: &[u8]) -> Result<(), FuzzFail> {
     use crate::p_grammar::*;
     let mut c = Cur::new(data);
     let mask = c.u16();
-    let timeout_idx = c.u8() & 3;
+    let timeout_idx = c.u8() % 5;
     let mut steps = Vec::new();
     while !c.done() && steps.len() < 500 {
         let k = c.u8();
